@@ -490,8 +490,11 @@ def write_evidence(mod, tier, seed, merged, wall, violations, extra=None):
         "wall_s": round(wall, 2),
         "violations": violations,
     }
-    os.makedirs(os.path.join(ROOT, "evidence"), exist_ok=True)
-    p = os.path.join(ROOT, "evidence", mod.ID + ".json")
+    # evidence/ describes /repo only: a run against another tree (VERIF_REPO: mutants, seeded changes) writes elsewhere
+    other = os.path.realpath(os.environ.get("VERIF_REPO", "/repo")) != os.path.realpath("/repo")
+    edir = os.path.join(ROOT, ".run", "evidence_other_tree") if other else os.path.join(ROOT, "evidence")
+    os.makedirs(edir, exist_ok=True)
+    p = os.path.join(edir, mod.ID + ".json")
     tmp = p + ".tmp"
     with open(tmp, "w") as f:
         json.dump(ev, f, indent=1, sort_keys=True)
